@@ -1,11 +1,11 @@
-\* N=3, everything emitted (1138 DAGs)
+\* thorough: N=5 over {basic, finalize}
 SPECIFICATION Spec
 CONSTANTS
   MergeTag = 2
-  N = 3
-  Kinds = {"b0", "b1", "fin"}
+  N = 5
+  Kinds = {"b0", "fin"}
   Ops = {"n"}
-  EmitEvery = 1
+  EmitEvery = 40
   EmitSalt = 0
 INVARIANTS InvAlgEqRef InvLcaWalk InvFoldWalk InvFinalize InvOnce InvDominator InvFinalizeFirst Emit
 CHECK_DEADLOCK FALSE
